@@ -52,6 +52,7 @@ func c07Plan(rng *lib.Rand, idx uint64) *ref.Plan {
 		Narrow:        15,
 		BigEndian:     50,
 		Unknown:       25,
+		BigFileId:     4,
 		Compressed:    15,
 		NoTimeZero:    true,
 		Mesgs:         lib.HostedMesgs(ft),
